@@ -254,13 +254,17 @@ class SequentialMode:
         ]
 
     # TODO: Add unit tests
-    def create_params(self, dim_names: Mapping[str, str]) -> "xr.DataArray":
+    def create_params(
+        self, dim_names: Mapping[str, str], processor: "Processor"
+    ) -> "xr.DataArray":
         """Create an xarray DataArray representing the sequence of parameter steps.
 
         Parameters
         ----------
         dim_names : Mapping[str, str]
             A mapping of parameter keys to their corresponding dimension names for xarray.
+        processor : Processor
+            Processor providing the default value of the parameters that are not varied.
 
         Returns
         -------
@@ -275,7 +279,11 @@ class SequentialMode:
         }
         params_names = [dim_names[key] for key in all_steps]
 
-        params_sequential_list = list(zip(*all_steps.values(), strict=False))
+        # One parameter is varied at a time, the others keep their default value
+        params_sequential_list = [
+            tuple(entry.parameters[key] for key in all_steps)
+            for entry in self.get_parameters_item(processor=processor)
+        ]
         params_sequential_with_index = [
             (idx, *el) for idx, el in zip(count(), params_sequential_list)
         ]
